@@ -1,0 +1,17 @@
+//go:build verif
+
+package aggoracle
+
+import "context"
+
+// This file only exists under the `verif` build tag.
+
+// VerifTick is the body of one iteration of the Start loop; blockNumToFetch is the loop's sticky
+// variable, held by the caller.
+func (a *AggOracle) VerifTick(ctx context.Context, blockNumToFetch *uint64) error {
+	err := a.processLatestGER(ctx, blockNumToFetch)
+	if err != nil {
+		a.handleGERProcessingError(err, *blockNumToFetch)
+	}
+	return err
+}
